@@ -141,6 +141,11 @@ func c15Run(c c15Case) (string, string) {
 		}
 		later := w.take()
 		if countType(later, "5") != 0 {
+			if countType(later, "1") != 0 {
+				// the session's test-request timer expired while the Logout was unanswered and replaced the
+				// waiting-for-logout-answer state (same defect as logout:timer-overwrites-state, reached through Stop)
+				return "stop:timer-overwrites-state", fmt.Sprintf("a second Logout was sent on the peer's late answer: outs=[%s]", outsStr(later))
+			}
 			return "stop:second-logout", fmt.Sprintf("outs=[%s]", outsStr(later))
 		}
 	}
